@@ -142,6 +142,7 @@ def shrink(ctx, case, detail, want_cyclic):
     if case["kind"] != "dag": return case, detail
     adj, roots = case["adj"], case["roots"]
     def fails(a, r):
+        if ctx.shrink_expired(): return False
         impl = enc_groups_impl(ctx.harness.call(fn="dag_groups", adj=a, roots=r))
         v = ctx.model.call("dag", a, r, impl)
         return bool(v[0]) and bool(v[4]) == want_cyclic and not bool(v[3])
